@@ -247,9 +247,9 @@ func main() {
 		QuickDeadline: 150, ThoroughDeadline: 840,
 		Run: func(t *vlib.T) {
 			runGrid(t)
-			runBin(t)
 			runMut(t)
 			runLex(t)
+			runBin(t) // last: on a tree that trusts length prefixes these cases allocate GiBs and are slow
 		},
 	})
 }
